@@ -208,7 +208,7 @@ class CIMNamespaceProvider(InstanceWriteProvider):
         try:
             return super().CreateInstance(
                 namespace, new_instance)
-        except CIMError:
+        except Exception:
             if namespace_added:
                 self.cimrepository.remove_namespace(new_namespace)
             raise
